@@ -7427,7 +7427,8 @@ void SymbolDatabase::setValueType(Token* tok, const ValueType& valuetype, const 
             vt.sign = vt2->sign;
             vt.originalTypeName = vt2->originalTypeName;
         }
-        if (vt.type < ValueType::Type::INT && !(ternary && vt.type==ValueType::Type::BOOL)) {
+        // integer promotion; the result of ++ and -- has the type of the operand
+        if (vt.type < ValueType::Type::INT && !(ternary && vt.type==ValueType::Type::BOOL) && parent->tokType() != Token::eIncDecOp) {
             vt.type = ValueType::Type::INT;
             vt.sign = ValueType::Sign::SIGNED;
             vt.originalTypeName.clear();
